@@ -235,6 +235,12 @@ wrapint wrapint::sdiv(wrapint x) const {
     ikos::z_number dividend = get_signed_bignum();
     ikos::z_number divisor = x.get_signed_bignum();
     ikos::z_number r = dividend / divisor;
+    if (!r.fits_int64()) {
+      // The quotient of two 64-bit signed numbers exceeds int64_t only if
+      // it is 2^63 (minimum signed value divided by -1), which wraps
+      // around to the dividend.
+      return *this;
+    }
     return wrapint(r, get_bitwidth());
   }
 }
@@ -396,8 +402,12 @@ wrapint wrapint::ashr(wrapint x) const {
     // fill blanks with 1's
     uint64_t all_ones =
         (_width < 64 ? ((uint64_t)1 << (uint64_t)_width) - 1 : UINT64_MAX);
+    if (x._n == 0) {
+      return *this;
+    }
     // 1110..0
-    uint64_t only_upper_bits_ones = all_ones << (uint64_t)(_width - x._n);
+    uint64_t only_upper_bits_ones =
+        (all_ones << (uint64_t)(_width - x._n)) & all_ones;
     return wrapint(only_upper_bits_ones | (_n >> x._n), _width, _mod);
   }
 }
